@@ -75,6 +75,8 @@ impl Torrent {
 
 struct Peer {
     addr: String,
+    /// name used in harness-side events; differs from addr for a second connection from the same address
+    label: String,
     id: [u8; 20],
     stream: Option<tokio::io::ReadHalf<DuplexStream>>,
     out: Option<tokio::sync::mpsc::UnboundedSender<Vec<u8>>>,
@@ -369,7 +371,7 @@ async fn run_scenario(sc: Value, run: std::path::PathBuf, panics: std::sync::Arc
         for x in p["has"].as_array().map(|v| v.clone()).unwrap_or_default() {
             has[x.as_u64().unwrap() as usize] = true;
         }
-        Peer { addr: p["addr"].as_str().unwrap().to_string(), id, stream: None, out: None, inbuf: vec![], closed_seen: false, has,
+        Peer { addr: p["addr"].as_str().unwrap().to_string(), label: p["label"].as_str().unwrap_or(p["addr"].as_str().unwrap()).to_string(), id, stream: None, out: None, inbuf: vec![], closed_seen: false, has,
                auto_serve: p["serve"].as_str().unwrap_or("none").to_string(),
                corrupt: p["corrupt"].as_array().map(|v| v.iter().map(|x| x.as_u64().unwrap() as usize).collect()).unwrap_or_default(),
                lifo: p["lifo"].as_bool().unwrap_or(false), we_unchoked_client: false, pending: VecDeque::new(),
@@ -405,7 +407,7 @@ async fn run_scenario(sc: Value, run: std::path::PathBuf, panics: std::sync::Arc
 
     emit("Reset", format!("\"npieces\":{},\"plens\":{},\"info_hash\":\"{}\",\"own_id\":\"{}\",\"peers\":{}",
         t.npieces, json!((0..t.npieces).map(|i| t.piece_len(i)).collect::<Vec<_>>()), hex(&info_hash), hex(&own_id),
-        json!(peers.iter().map(|p| json!({"addr": p.addr, "id": hex(&p.id)})).collect::<Vec<_>>())));
+        json!(peers.iter().map(|p| json!({"addr": p.label, "id": hex(&p.id)})).collect::<Vec<_>>())));
 
     // disk faults: a directory with the name of the piece file makes storing that piece fail
     for p in sc["blocked"].as_array().map(|v| v.clone()).unwrap_or_default() {
@@ -428,7 +430,7 @@ async fn run_scenario(sc: Value, run: std::path::PathBuf, panics: std::sync::Arc
     for (si, step) in steps.iter().enumerate() {
         let op = step["op"].as_str().unwrap();
         let pi = step["peer"].as_u64().unwrap_or(0) as usize;
-        emit("Step", format!("\"i\":{},\"op\":\"{}\",\"peer\":\"{}\"", si, op, if step["peer"].is_null() { "".to_string() } else { peers[pi].addr.clone() }));
+        emit("Step", format!("\"i\":{},\"op\":\"{}\",\"peer\":\"{}\"", si, op, if step["peer"].is_null() { "".to_string() } else { peers[pi].label.clone() }));
         match op {
             "listen" => {
                 // make the peer reachable for an outgoing connection of the client
@@ -445,7 +447,7 @@ async fn run_scenario(sc: Value, run: std::path::PathBuf, panics: std::sync::Arc
                 let mut bytes = vec![];
                 for f in step["frames"].as_array().unwrap() {
                     let enc = encode_frame(f, &t, &info_hash, &peers[pi].id);
-                    emit("Send", format!("\"peer\":\"{}\",\"f\":{}", peers[pi].addr, f));
+                    emit("Send", format!("\"peer\":\"{}\",\"f\":{}", peers[pi].label, f));
                     if f["k"] == "Unchoke" { peers[pi].we_unchoked_client = true; }
                     if f["k"] == "Choke" { peers[pi].we_unchoked_client = false; peers[pi].pending.clear(); }
                     bytes.extend_from_slice(&enc);
@@ -472,7 +474,7 @@ async fn run_scenario(sc: Value, run: std::path::PathBuf, panics: std::sync::Arc
                 let mut bytes = vec![];
                 for f in step["frames"].as_array().unwrap() {
                     bytes.extend_from_slice(&encode_frame(f, &t, &info_hash, &peers[pi].id));
-                    emit("Send", format!("\"peer\":\"{}\",\"f\":{}", peers[pi].addr, f));
+                    emit("Send", format!("\"peer\":\"{}\",\"f\":{}", peers[pi].label, f));
                 }
                 push(&mut peers[pi], &bytes);
                 tokio::task::yield_now().await;
@@ -486,7 +488,7 @@ async fn run_scenario(sc: Value, run: std::path::PathBuf, panics: std::sync::Arc
                     let mut bytes = vec![];
                     for f in part["frames"].as_array().unwrap() {
                         bytes.extend_from_slice(&encode_frame(f, &t, &info_hash, &peers[pj].id));
-                        emit("Send", format!("\"peer\":\"{}\",\"f\":{}", peers[pj].addr, f));
+                        emit("Send", format!("\"peer\":\"{}\",\"f\":{}", peers[pj].label, f));
                         if f["k"] == "Unchoke" { peers[pj].we_unchoked_client = true; }
                         if f["k"] == "Choke" { peers[pj].we_unchoked_client = false; peers[pj].pending.clear(); }
                     }
@@ -518,6 +520,10 @@ async fn run_scenario(sc: Value, run: std::path::PathBuf, panics: std::sync::Arc
                 peers[pi].auto_serve = step["mode"].as_str().unwrap().to_string();
             }
             _ => panic!("unknown step {}", op),
+        }
+        if !step["settle"].as_bool().unwrap_or(true) {
+            // the next step happens before the client had a chance to run
+            continue;
         }
         react(&mut peers, &t, &info_hash).await;
         if step["scan"].as_bool().unwrap_or(true) {
@@ -567,7 +573,7 @@ async fn react(peers: &mut Vec<Peer>, t: &Torrent, info_hash: &[u8; 20]) {
                 }
             }
             for f in frames.iter() {
-                trace::emit("net", &format!("\"ev\":\"Out\",\"peer\":\"{}\",\"f\":{}", peers[pi].addr, f));
+                trace::emit("net", &format!("\"ev\":\"Out\",\"peer\":\"{}\",\"f\":{}", peers[pi].label, f));
                 if f["k"] == "Request" {
                     let a: Vec<usize> = f["a"].as_array().unwrap().iter().map(|x| x.as_u64().unwrap() as usize).collect();
                     peers[pi].pending.push_back((a[0], a[1], a[2]));
@@ -579,7 +585,7 @@ async fn react(peers: &mut Vec<Peer>, t: &Torrent, info_hash: &[u8; 20]) {
             }
             if eof && !peers[pi].closed_seen {
                 peers[pi].closed_seen = true;
-                trace::emit("net", &format!("\"ev\":\"Closed\",\"peer\":\"{}\"", peers[pi].addr));
+                trace::emit("net", &format!("\"ev\":\"Closed\",\"peer\":\"{}\"", peers[pi].label));
             }
             // auto responder: an honest (or deliberately corrupting) seeder answers requests
             if peers[pi].auto_serve != "none" && peers[pi].we_unchoked_client && peers[pi].stream.is_some() {
@@ -591,7 +597,7 @@ async fn react(peers: &mut Vec<Peer>, t: &Torrent, info_hash: &[u8; 20]) {
                     let bad = peers[pi].auto_serve == "corrupt" && peers[pi].corrupt.contains(&i);
                     let f = json!({"k": "Piece", "a": [i, b, l], "bad": bad});
                     let enc = encode_frame(&f, t, info_hash, &peers[pi].id);
-                    emit("Send", format!("\"peer\":\"{}\",\"f\":{},\"auto\":true", peers[pi].addr, f));
+                    emit("Send", format!("\"peer\":\"{}\",\"f\":{},\"auto\":true", peers[pi].label, f));
                     push(&mut peers[pi], &enc);
                     wrote = true;
                     quiesce().await;
